@@ -1,4 +1,590 @@
 package driver
 
-func CheckMain(args []string) int  { return 2 }
-func ReplayMain(args []string) int { return 2 }
+import (
+	"bytes"
+	"context"
+	"encoding/json"
+	"flag"
+	"fmt"
+	"os"
+	"os/exec"
+	"path/filepath"
+	"sort"
+	"strconv"
+	"strings"
+	"sync"
+	"time"
+)
+
+type KnownFinding struct {
+	Property string                 `json:"property"`
+	Harness  string                 `json:"harness"`
+	Label    string                 `json:"label"`
+	Where    map[string]interface{} `json:"where,omitempty"` // required cex values
+	Status   string                 `json:"status"`          // "known" | "fixed"
+	Commit   string                 `json:"commit,omitempty"`
+	What     string                 `json:"what"`
+}
+
+func loadKnown() []KnownFinding {
+	b, err := os.ReadFile(filepath.Join(VerifRoot, "known_findings.json"))
+	if err != nil {
+		return nil
+	}
+	var k []KnownFinding
+	json.Unmarshal(b, &k)
+	return k
+}
+
+type cexFile struct {
+	Harness string                 `json:"harness"`
+	Label   string                 `json:"label"`
+	Site    string                 `json:"site"`
+	Case    int                    `json:"case"`
+	Values  map[string]interface{} `json:"values"`
+	Params  map[string]int         `json:"params"`
+	Trace   []string               `json:"trace"`
+}
+
+func readCex(path string) (*cexFile, error) {
+	b, err := os.ReadFile(path)
+	if err != nil {
+		return nil, err
+	}
+	var c cexFile
+	if err := json.Unmarshal(b, &c); err != nil {
+		return nil, err
+	}
+	return &c, nil
+}
+
+func matchesKnown(k KnownFinding, prop string, c *cexFile) bool {
+	if k.Status != "known" || k.Property != prop || k.Harness != c.Harness || k.Label != c.Label {
+		return false
+	}
+	for key, want := range k.Where {
+		if fmt.Sprint(c.Values[key]) != fmt.Sprint(want) {
+			return false
+		}
+	}
+	return true
+}
+
+type harnessSummary struct {
+	Name         string             `json:"harness"`
+	Entry        string             `json:"entry"`
+	Package      string             `json:"package"`
+	Cases        int                `json:"cases"`
+	Params       map[string]int     `json:"params"`
+	Unwind       int                `json:"unwind_bound"`
+	Bounds       string             `json:"bounds"`
+	Outside      string             `json:"outside_the_claim,omitempty"`
+	Paths        int                `json:"paths"`
+	Infeasible   int                `json:"infeasible_paths"`
+	Forks        int                `json:"forks"`
+	Obligations  int                `json:"obligations"`
+	Discharged   int                `json:"discharged"`
+	Trivial      int                `json:"asserts_true_by_constant_folding"`
+	Reach        map[string]int     `json:"reach_tags"`
+	AssertLabels map[string]int     `json:"assert_labels"`
+	UnwindMax    int                `json:"unwind_max_seen"`
+	WallS        float64            `json:"wall_s"`
+	Replays      int                `json:"native_replays"`
+	Witnesses    int                `json:"witness_paths_validated_natively"`
+}
+
+type replayTask struct {
+	h       *HarnessSpec
+	hs      *harnessSummary
+	k       int
+	file    string
+	witness bool
+	out     string
+	verdict string
+}
+
+func CheckMain(args []string) int {
+	fs := flag.NewFlagSet("check", flag.ExitOnError)
+	tier := fs.String("tier", "", "quick|thorough")
+	only := fs.String("only", "", "comma-separated harness names")
+	jobs := fs.Int("j", 16, "parallel workers")
+	noEvidence := fs.Bool("no-evidence", false, "")
+	var prop string
+	if len(args) > 0 && !strings.HasPrefix(args[0], "-") {
+		prop = args[0]
+		args = args[1:]
+	}
+	fs.Parse(args)
+	if prop == "" && fs.NArg() > 0 {
+		prop = fs.Arg(0)
+	}
+	if prop == "" {
+		fmt.Fprintln(os.Stderr, "check: property id required")
+		return 2
+	}
+	t := *tier
+	if v := os.Getenv("VERIF_TIER"); v != "" && t == "" {
+		t = v
+	}
+	if t == "" {
+		t = "quick"
+	}
+	seed := 0
+	if v := os.Getenv("VERIF_SEED"); v != "" {
+		seed, _ = strconv.Atoi(v)
+	}
+	start := time.Now()
+	spec, hdir, err := LoadSpec(prop)
+	if err != nil {
+		fmt.Fprintln(os.Stderr, "check:", err)
+		return 2
+	}
+	outDir := filepath.Join(VerifRoot, "out", prop)
+	os.RemoveAll(outDir)
+	os.MkdirAll(outDir, 0o755)
+	self, _ := os.Executable()
+
+	onlySet := map[string]bool{}
+	for _, n := range strings.Split(*only, ",") {
+		if n != "" {
+			onlySet[n] = true
+		}
+	}
+	type job struct {
+		h    *HarnessSpec
+		k    int
+		file string
+	}
+	var jobsL []job
+	var active []*HarnessSpec
+	for i := range spec.Harnesses {
+		h := &spec.Harnesses[i]
+		if len(onlySet) > 0 && !onlySet[h.Name] {
+			continue
+		}
+		ts, ok := h.Tiers[t]
+		if !ok || ts.Skip {
+			continue
+		}
+		active = append(active, h)
+		n := ts.Cases
+		if n == 0 {
+			n = 1
+		}
+		for k := 0; k < n; k++ {
+			jobsL = append(jobsL, job{h, k, filepath.Join(outDir, fmt.Sprintf("%s-c%d.result.json", h.Name, k))})
+		}
+	}
+	sem := make(chan struct{}, *jobs)
+	var wg sync.WaitGroup
+	for _, j := range jobsL {
+		wg.Add(1)
+		go func(j job) {
+			defer wg.Done()
+			sem <- struct{}{}
+			defer func() { <-sem }()
+			ts := j.h.Tiers[t]
+			tmo := ts.TimeoutS
+			if tmo == 0 {
+				tmo = 240
+				if t == "thorough" {
+					tmo = 1500
+				}
+			}
+			ctx, cancel := context.WithTimeout(context.Background(), time.Duration(tmo+120)*time.Second)
+			defer cancel()
+			cmd := exec.CommandContext(ctx, self, "worker", "--prop", prop, "--harness", j.h.Name, "--tier", t,
+				"--case", strconv.Itoa(j.k), "--out", j.file, "--outdir", outDir)
+			cmd.Env = append(os.Environ(), "VERIF_ROOT="+VerifRoot)
+			var stderr bytes.Buffer
+			cmd.Stderr = &stderr
+			cmd.Stdout = &stderr
+			if err := cmd.Run(); err != nil {
+				r := &WorkerResult{Harness: j.h.Name, Case: j.k, Error: fmt.Sprintf("worker failed: %v: %s", err, tail(stderr.String(), 2000)), Reach: map[string]int{}}
+				WriteResult(r, j.file)
+			}
+		}(j)
+	}
+	wg.Wait()
+
+	// ---- collect ----
+	known := loadKnown()
+	var inconclusive []string
+	var violations []string
+	var knownLines []string
+	sums := map[string]*harnessSummary{}
+	funcs := map[string]bool{}
+	stubs := map[string]bool{}
+	havoc := map[string]bool{}
+	intr := map[string]bool{}
+	var samples []interface{}
+	solverQ := map[string]int{}
+	solverS := map[string]float64{}
+	totalObl, totalDis, totalPaths, totalForks, totalReplays, totalWitness := 0, 0, 0, 0, 0, 0
+	var tasks []*replayTask
+	for _, h := range active {
+		ts := h.Tiers[t]
+		n := ts.Cases
+		if n == 0 {
+			n = 1
+		}
+		hs := &harnessSummary{Name: h.Name, Entry: h.Entry, Package: h.Pkg, Cases: n, Params: ts.Params, Unwind: ts.Unwind,
+			Bounds: h.Bounds, Outside: h.Outside, Reach: map[string]int{}, AssertLabels: map[string]int{}}
+		sums[h.Name] = hs
+		for k := 0; k < n; k++ {
+			file := filepath.Join(outDir, fmt.Sprintf("%s-c%d.result.json", h.Name, k))
+			b, err := os.ReadFile(file)
+			if err != nil {
+				inconclusive = append(inconclusive, fmt.Sprintf("%s case %d: no result", h.Name, k))
+				continue
+			}
+			var r WorkerResult
+			if err := json.Unmarshal(b, &r); err != nil {
+				inconclusive = append(inconclusive, fmt.Sprintf("%s case %d: bad result", h.Name, k))
+				continue
+			}
+			if r.Error != "" {
+				inconclusive = append(inconclusive, fmt.Sprintf("%s case %d: %s", h.Name, k, r.Error))
+				continue
+			}
+			hs.Paths += r.Paths
+			hs.Infeasible += r.Infeasible
+			hs.Forks += r.Forks
+			hs.Obligations += r.Obligations
+			hs.Discharged += r.Discharged
+			hs.Trivial += r.Trivial
+			hs.WallS += r.WallS
+			if r.UnwindMax > hs.UnwindMax {
+				hs.UnwindMax = r.UnwindMax
+			}
+			for tag, c := range r.Reach {
+				hs.Reach[tag] += c
+			}
+			for l, c := range r.AssertLabels {
+				hs.AssertLabels[l] += c
+			}
+			for _, f := range r.Funcs {
+				funcs[f] = true
+			}
+			for _, f := range r.Stubs {
+				stubs[f] = true
+			}
+			for _, f := range r.Havoc {
+				havoc[f] = true
+			}
+			for _, f := range r.Intrinsics {
+				intr[f] = true
+			}
+			for q, c := range r.SolverQ {
+				solverQ[q] += c
+			}
+			for q, c := range r.SolverS {
+				solverS[q] += c
+			}
+			if len(samples) < 6 {
+				for _, s := range r.Samples {
+					if len(samples) < 6 {
+						samples = append(samples, map[string]interface{}{"harness": h.Name, "case": k, "path": s})
+					}
+				}
+			}
+			for _, u := range r.Undecided {
+				inconclusive = append(inconclusive, fmt.Sprintf("%s case %d: obligation %q not decided (%s) script=%s", h.Name, k, u.Label, u.Why, u.Script))
+			}
+			for _, m := range r.Inconclusive {
+				inconclusive = append(inconclusive, fmt.Sprintf("%s case %d: %s", h.Name, k, m))
+			}
+			for _, wf := range r.Witnesses {
+				if h.Replay != "none" {
+					tasks = append(tasks, &replayTask{h: h, hs: hs, k: k, file: wf, witness: true})
+				}
+			}
+			for _, cf := range r.Cexs {
+				tasks = append(tasks, &replayTask{h: h, hs: hs, k: k, file: cf})
+			}
+		}
+		for _, tag := range h.Reach {
+			if hs.Reach[tag] == 0 {
+				inconclusive = append(inconclusive, fmt.Sprintf("%s: reach tag %q never reached (vacuous harness)", h.Name, tag))
+			}
+		}
+		totalObl += hs.Obligations
+		totalDis += hs.Discharged
+		totalPaths += hs.Paths
+		totalForks += hs.Forks
+	}
+
+	// ---- native replays (parallel) ----
+	{
+		rsem := make(chan struct{}, 8)
+		var rwg sync.WaitGroup
+		for _, tk := range tasks {
+			if tk.h.Replay == "none" {
+				tk.verdict = "unreplayed"
+				continue
+			}
+			rwg.Add(1)
+			go func(tk *replayTask) {
+				defer rwg.Done()
+				rsem <- struct{}{}
+				defer func() { <-rsem }()
+				tk.out, tk.verdict = NativeReplay(tk.h, hdir, tk.file, outDir)
+			}(tk)
+		}
+		rwg.Wait()
+	}
+	for _, tk := range tasks {
+		h, hs, k := tk.h, tk.hs, tk.k
+		if tk.witness {
+			hs.Witnesses++
+			totalWitness++
+			if tk.verdict != "pass" {
+				inconclusive = append(inconclusive, fmt.Sprintf("%s case %d: witness path %s did not pass natively (%s): symbolic and native worlds disagree\n%s", h.Name, k, tk.file, tk.verdict, tail(tk.out, 1500)))
+			}
+			continue
+		}
+		cf := tk.file
+		c, err := readCex(cf)
+		if err != nil {
+			inconclusive = append(inconclusive, "unreadable cex "+cf)
+			continue
+		}
+		if tk.verdict != "unreplayed" {
+			hs.Replays++
+			totalReplays++
+		}
+		switch tk.verdict {
+		case "fail":
+			isKnown := false
+			for _, kf := range known {
+				if matchesKnown(kf, prop, c) {
+					isKnown = true
+					knownLines = append(knownLines, fmt.Sprintf("KNOWN-FINDING: property=%s %s [%s] %s", prop, h.Name, c.Label, kf.What))
+				}
+			}
+			if !isKnown {
+				keep := filepath.Join(VerifRoot, "out", "violations", prop)
+				os.MkdirAll(keep, 0o755)
+				dst := filepath.Join(keep, filepath.Base(cf))
+				if b, err := os.ReadFile(cf); err == nil {
+					os.WriteFile(dst, b, 0o644)
+				}
+				violations = append(violations, fmt.Sprintf("VIOLATION property=%s replay=%s", prop, dst))
+				fmt.Printf("  harness=%s assertion=%q site=%s values=%v\n", h.Name, c.Label, c.Site, c.Values)
+			}
+		case "unreplayed":
+			inconclusive = append(inconclusive, fmt.Sprintf("%s: solver counterexample for %q (%s) has no native replay configured", h.Name, c.Label, cf))
+		default:
+			inconclusive = append(inconclusive, fmt.Sprintf("%s: solver counterexample for %q (%s) did not reproduce natively (%s): encoding/stub mismatch, not a finding\n%s", h.Name, c.Label, cf, tk.verdict, tail(tk.out, 1500)))
+		}
+	}
+
+	sort.Strings(knownLines)
+	knownLines = uniq(knownLines)
+	violations = uniq(violations)
+	for _, l := range knownLines {
+		fmt.Println(l)
+	}
+	for _, l := range violations {
+		fmt.Println(l)
+	}
+	for _, l := range inconclusive {
+		fmt.Println("INCONCLUSIVE:", l)
+	}
+	wall := time.Since(start).Seconds()
+
+	if !*noEvidence {
+		var hsl []*harnessSummary
+		for _, h := range active {
+			hsl = append(hsl, sums[h.Name])
+		}
+		if len(samples) == 0 {
+			samples = append(samples, "no completed path")
+		}
+		var assumptions []string
+		seenA := map[string]bool{}
+		for _, h := range active {
+			for _, a := range h.Assumes {
+				if !seenA[a] {
+					seenA[a] = true
+					assumptions = append(assumptions, a)
+				}
+			}
+		}
+		for _, s := range sortedKeys(stubs) {
+			assumptions = append(assumptions, "stub: "+s)
+		}
+		for _, s := range sortedKeys(havoc) {
+			assumptions = append(assumptions, "havoc (result unconstrained, effects ignored): "+s)
+		}
+		for _, s := range sortedKeys(intr) {
+			assumptions = append(assumptions, "engine intrinsic model: "+s)
+		}
+		assumptions = append(assumptions, "go/ssa lowering, the gosym interpreter and the SMT solvers (z3 4.8.12, cvc5 1.0, z3 5.1.0) are trusted; counterexamples are only reported after native replay")
+		ev := map[string]interface{}{
+			"property_id": prop,
+			"tier":        t,
+			"seed":        seed,
+			"level":       "model_checking",
+			"coverage": map[string]interface{}{
+				"states":                        max(totalPaths, 0),
+				"transitions":                   max(totalForks, 0),
+				"traces_validated_against_impl": totalReplays + totalWitness,
+				"samples":                       samples,
+				"obligations":                   totalObl,
+				"discharged":                    totalDis,
+				"explanation":                   "states = symbolic execution paths completed (each covers every input satisfying its path condition); transitions = fork decisions; obligations = SMT queries pc∧¬assert; discharged = answered unsat. traces_validated_against_impl = witness models of completed paths and counterexamples re-run natively (go test -overlay) against the real code",
+				"exhaustive":                    len(inconclusive) == 0,
+				"harnesses":                     hsl,
+				"functions_encoded":             sortedKeys(funcs),
+				"solver_queries":                solverQ,
+				"solver_seconds":                solverS,
+				"inconclusive":                  inconclusive,
+				"known_findings":                knownLines,
+			},
+			"assumptions": assumptions,
+			"wall_s":      wall,
+			"violations":  len(violations),
+		}
+		os.MkdirAll(filepath.Join(VerifRoot, "evidence"), 0o755)
+		b, _ := json.MarshalIndent(ev, "", " ")
+		os.WriteFile(filepath.Join(VerifRoot, "evidence", prop+".json"), b, 0o644)
+	}
+	fmt.Printf("check %s tier=%s: harnesses=%d paths=%d obligations=%d discharged=%d violations=%d known=%d inconclusive=%d wall=%.1fs\n",
+		prop, t, len(active), totalPaths, totalObl, totalDis, len(violations), len(knownLines), len(inconclusive), wall)
+	if len(violations) > 0 {
+		return 1
+	}
+	if len(inconclusive) > 0 {
+		return 2
+	}
+	return 0
+}
+
+func uniq(s []string) []string {
+	var out []string
+	seen := map[string]bool{}
+	for _, x := range s {
+		if !seen[x] {
+			seen[x] = true
+			out = append(out, x)
+		}
+	}
+	return out
+}
+
+func sortedKeys(m map[string]bool) []string {
+	var ks []string
+	for k := range m {
+		ks = append(ks, k)
+	}
+	sort.Strings(ks)
+	return ks
+}
+
+func tail(s string, n int) string {
+	if len(s) > n {
+		return "…" + s[len(s)-n:]
+	}
+	return s
+}
+
+// NativeReplay runs the harness natively with the values of the cex file.
+// verdict: "fail" (assertion failed / panicked natively), "pass", "rejected"
+// (an assumption did not hold natively), "error".
+func NativeReplay(h *HarnessSpec, hdir, cexPath, outDir string) (string, string) {
+	ov, pkgName, stubs, err := h.Overlay(hdir, "native")
+	if err != nil {
+		return err.Error(), "error"
+	}
+	tmp, err := os.MkdirTemp(outDir, "replay-")
+	if err != nil {
+		return err.Error(), "error"
+	}
+	defer os.RemoveAll(tmp)
+	// stub trampolines for the native world
+	hooks, err := GenStubs(h, stubs, ov)
+	if err != nil {
+		return "stubgen: " + err.Error(), "error"
+	}
+	var test strings.Builder
+	fmt.Fprintf(&test, "package %s\n\nimport (\n\t\"testing\"\n", pkgName)
+	for _, imp := range hooks.Imports {
+		fmt.Fprintf(&test, "\t%s %q\n", imp.Alias, imp.Path)
+	}
+	fmt.Fprintf(&test, ")\n\nfunc TestVerifReplay(t *testing.T) {\n")
+	for _, as := range hooks.Assigns {
+		fmt.Fprintf(&test, "\t%s\n", as)
+	}
+	fmt.Fprintf(&test, "\tif verifRunNative(%s) {\n\t\tt.Fatal(\"VERIF-REPLAY-FAILED\")\n\t}\n}\n", h.Entry)
+	ov[filepath.Join(h.PkgDir(), "zz_verif_replay_test.go")] = []byte(test.String())
+	repl := map[string]string{}
+	i := 0
+	for virt, content := range ov {
+		i++
+		real := filepath.Join(tmp, fmt.Sprintf("f%d_%s", i, filepath.Base(virt)))
+		if err := os.WriteFile(real, content, 0o644); err != nil {
+			return err.Error(), "error"
+		}
+		repl[virt] = real
+	}
+	ovJSON, _ := json.Marshal(map[string]interface{}{"Replace": repl})
+	ovFile := filepath.Join(tmp, "overlay.json")
+	os.WriteFile(ovFile, ovJSON, 0o644)
+	ctx, cancel := context.WithTimeout(context.Background(), 300*time.Second)
+	defer cancel()
+	cmd := exec.CommandContext(ctx, "go", "test", "-v", "-vet=off", "-count=1", "-run", "^TestVerifReplay$", "-overlay", ovFile, "-timeout", "120s", ".")
+	cmd.Dir = h.PkgDir()
+	abs, _ := filepath.Abs(cexPath)
+	cmd.Env = append(GoEnv(), "VERIF_MODEL="+abs)
+	outB, _ := cmd.CombinedOutput()
+	out := string(outB)
+	switch {
+	case strings.Contains(out, "VERIF-ASSERT-FAILED"), strings.Contains(out, "VERIF-PANIC"):
+		return out, "fail"
+	case strings.Contains(out, "VERIF-MODEL-REJECTED"):
+		return out, "rejected"
+	case strings.Contains(out, "VERIF-NATIVE-PASS"):
+		return out, "pass"
+	case strings.Contains(out, "panic:") && strings.Contains(out, "FAIL"):
+		return out, "fail"
+	case strings.Contains(out, "fatal error: all goroutines are asleep"), strings.Contains(out, "test timed out"):
+		return out, "fail"
+	}
+	return out, "error"
+}
+
+func ReplayMain(args []string) int {
+	if len(args) < 2 {
+		fmt.Fprintln(os.Stderr, "usage: gosym replay <PROP> <cex.json>")
+		return 2
+	}
+	prop, cexPath := args[0], args[1]
+	spec, hdir, err := LoadSpec(prop)
+	if err != nil {
+		fmt.Fprintln(os.Stderr, err)
+		return 2
+	}
+	c, err := readCex(cexPath)
+	if err != nil {
+		fmt.Fprintln(os.Stderr, err)
+		return 2
+	}
+	for i := range spec.Harnesses {
+		h := &spec.Harnesses[i]
+		if h.Name == c.Harness {
+			outDir := filepath.Join(VerifRoot, "out", prop)
+			os.MkdirAll(outDir, 0o755)
+			out, verdict := NativeReplay(h, hdir, cexPath, outDir)
+			fmt.Println(out)
+			fmt.Println("replay verdict:", verdict)
+			if verdict == "fail" {
+				fmt.Printf("VIOLATION property=%s replay=%s\n", prop, cexPath)
+				return 1
+			}
+			return 0
+		}
+	}
+	fmt.Fprintln(os.Stderr, "harness not found:", c.Harness)
+	return 2
+}
